@@ -211,7 +211,7 @@ fn session_cyclic_requires_abort() {
 // ---- C18 through sessions -------------------------------------------------------------------------------------------------
 /// P0 reads Cell1 with the failing-mode checker. Session 2 runs with the fault raised: the task is re-executed (no stale
 /// reuse), the error is reported, the build returns. Session 3 runs with the fault gone: judged by the checker again.
-//@h props=C18,C01:t tier=quick unwind=14 stubs=sort,boxslice timeout=1200 fieldsens=1024
+//@h props=C18,C01 tier=quick unwind=14 stubs=sort,boxslice timeout=1200 fieldsens=1024
 fn session_checker_error_then_recovery() {
   unsafe { PROG = [[E; NINS]; NTASK]; PROG[0] = [Ins::Req(1, 0), Ins::Read(0, M_EXACT), E, E]; PROG[1] = [Ins::Read(1, M_FAILING), E, E, E]; }
   let mut pie = fresh();
